@@ -19,6 +19,20 @@ these and need no patch), and the ``shutil`` fast paths (sendfile / fcopyfile) a
 copies go through the proxies.  ``tarfile.bltn_open`` is re-pointed too (tarfile captures ``open`` at
 import time).  Paths outside ``root`` are passed through untouched (ThreadPool semaphores in /dev/shm ...).
 
+Inode attribution rule (READ THIS when you consume ``ip.trace``)
+---------------------------------------------------------------
+``write``/``truncate``/``close`` entries belong to an OPEN FILE (``Op.fid``), i.e. to an inode, not to a name.
+``Op.path`` of such an entry is the name the file was OPENED under; if the file was renamed (or unlinked) while
+the descriptor was still open, later writes land in whatever name the inode has THEN — e.g. ``open(tmp);
+os.replace(tmp, target); write(...)`` tears ``target``.  ``Op.cur`` holds the name the inode has at the time of
+the entry (``None`` once it is unlinked); it is maintained from the recorded renames/unlinks (directory renames
+included).  Rules for consumers: (1) group entries by ``fid``, never by ``path``; (2) a write episode of a file
+ends at the LAST entry of its ``fid`` (normally the ``close``), not at the rename; (3) decide which on-disk
+name a write damages with ``Op.cur``; (4) materialised crash states are always right because the replay keeps
+real descriptors open across renames (``_apply``) — classify them against the state at the end of the
+episode, not against the state right after the rename; (5) any mutating entry that your translation to the
+model does not consume is a broken correspondence, not something to skip.
+
 Modes
 -----
 trace        ``ip.trace`` is a list of :class:`Op`.  ``ip.check_complete()`` replays the trace on the copy
@@ -118,11 +132,12 @@ class Op:
     the descriptor is in append mode); ``flags`` is a dict for ``open`` (creat/trunc/excl/append) or holds
     size/mode/times/target for truncate/chmod/utime/symlink."""
 
-    __slots__ = ("index", "op", "path", "path2", "fid", "data", "offset", "flags")
+    __slots__ = ("index", "op", "path", "path2", "fid", "data", "offset", "flags", "cur")
 
     def __init__(self, index, op, path=None, path2=None, fid=None, data=None, offset=None, flags=None):
         self.index, self.op, self.path, self.path2 = index, op, path, path2
         self.fid, self.data, self.offset, self.flags = fid, data, offset, flags or {}
+        self.cur = path      # for fid entries: the name the inode has now (set by Interposer._post)
 
     def mutating(self):
         return self.op in MUTATING
@@ -136,6 +151,8 @@ class Op:
             parts.append(f(self.path2))
         if self.op == "write":
             parts.append("fid=%s len=%d" % (self.fid, len(self.data)))
+        if self.fid is not None and self.op != "open" and self.cur != self.path:
+            parts.append("now=%s" % (f(self.cur) if self.cur else None))
         if self.op == "open":
             parts.append("fid=%s %s" % (self.fid, "+".join(k for k, v in sorted(self.flags.items()) if v)))
         return " ".join(parts)
@@ -234,6 +251,7 @@ class Interposer:
         self.active = False
         self._lock = threading.RLock()
         self._fds = {}             # os-level fd -> (fid, rel, append)
+        self._fidpath = {}         # fid -> current name of the inode (None = unlinked)
         self._nfid = 0
         self._saved = {}
         self._in_hook = threading.local()
@@ -281,6 +299,28 @@ class Interposer:
 
     def _post(self, op):
         with self._lock:
+            # inode attribution: follow the names of open files through renames and unlinks
+            fp = self._fidpath
+            if op.op == "open":
+                fp[op.fid] = op.path
+            elif op.op == "rename" and op.path is not None and op.path2 is not None:
+                for fid, p in list(fp.items()):
+                    if p is None:
+                        continue
+                    if p == op.path2 or p.startswith(op.path2 + os.sep):
+                        fp[fid] = None if p == op.path2 else p       # the old file at the destination loses its name
+                    if p == op.path:
+                        fp[fid] = op.path2
+                    elif p.startswith(op.path + os.sep):
+                        fp[fid] = op.path2 + p[len(op.path):]
+            elif op.op == "unlink":
+                for fid, p in list(fp.items()):
+                    if p == op.path:
+                        fp[fid] = None
+            if op.fid is not None and op.op != "open":
+                op.cur = fp.get(op.fid, op.path)
+                if op.op == "close":
+                    fp.pop(op.fid, None)
             self.trace.append(op)
 
     def _simple(self, name, opname, nargs):
